@@ -15,7 +15,7 @@ def synth_timing(rng, rich=True):
 
 def synth_mem(rng, family=None):
     family = family or rng.choice(["SDR1", "SDR2", "DDR2x", "DDR3x2", "DDR3x4", "DDR4x4", "LPDDR"])
-    m = dict(kind="synthetic", databits=rng.choice([8, 16]), bankbits=rng.choice([1, 2, 2, 3]),
+    m = dict(kind="synthetic", databits=rng.choice([8, 16, 16, 32]), bankbits=rng.choice([1, 2, 2, 3]),
              rowbits=rng.choice([11, 12, 13]), colbits=rng.choice([8, 9, 10, 11]), timing=synth_timing(rng))
     if family == "SDR1":
         m.update(memtype="SDR", nphases=1, rdphase=0, wrphase=0, cl=rng.choice([2, 3]), read_latency=rng.randint(2, 6),
@@ -78,7 +78,7 @@ MODULE_MEMS = [
 
 def rand_cs(rng, allow_buffered=True, refresh=True):
     cs = dict(
-        cmd_buffer_depth=rng.choice([2, 4, 4, 8, 8, 16]),
+        cmd_buffer_depth=rng.choice([1, 2, 3, 4, 4, 8, 8, 16]),
         cmd_buffer_buffered=bool(allow_buffered and rng.random() < 0.35),
         with_auto_precharge=rng.random() < 0.6,
         with_refresh=refresh,
